@@ -774,6 +774,9 @@ def flatten_path(path, flatten_slashes=False):
     # If the filename is empty string
     if flatten_slashes and path.endswith('/') or not len(new_parts):
         new_parts.append('')
+    elif parts[-1] in ('.', '..'):
+        # A trailing dot segment names a directory
+        new_parts.append('')
 
     # Put back leading slash
     new_parts.appendleft('')
